@@ -11,10 +11,12 @@
    invariant Inv for every pool state; an abrupt stop only adds entries to what a clean shutdown
    leaves on disk), and the refutations of the unguarded clauses by kernel-evaluated histories
    (Pool/BlobWitness.v, replayed on the real pool from corpus/C42/edge.txt).
-   PARTIAL: Inv is not carried through Add / SetGasTip / Reset / Init histories in Coq (only
-   through the eviction loop); index_store_agree and reopen_reproduces for clean shutdowns are
+   Inv (per account: non-empty, consecutive, starting at the state nonce, spent = sum of costs
+   <= balance) is carried through every history of Add and SetGasTip (including replacements,
+   the gapped buffer and its promotion, and the Datacap eviction loop).
+   PARTIAL: Inv is not carried through Reset / Init in Coq; index_store_agree and reopen_reproduces for clean shutdowns are
    checked by correspondence and the Go oracle only. *)
-From GV Require Import Lib.Tactics Pool.Blob Pool.BlobProofs Pool.BlobWitness.
+From GV Require Import Lib.Tactics Pool.Blob Pool.BlobProofs Pool.BlobAddProofs Pool.BlobWitness.
 Local Open Scope N_scope.
 
 (* blob_contiguous, list level: whatever recheck's threshold loop keeps has consecutive nonces
@@ -84,6 +86,26 @@ Theorem C42_eviction_loop_preserves_inv : forall prioE prioB gtE gtB c fuel p q,
   Inv p -> drop_loop prioE prioB gtE gtB c fuel p = Ok q -> Inv q.
 Proof. exact drop_loop_inv. Qed.
 Print Assumptions C42_eviction_loop_preserves_inv.
+
+(* blob_contiguous + blob_affordable over histories: every history of Add (ValidateTxBasics +
+   AddPooledTx: extension, replacement, gapped buffering and promotion, eviction) and
+   SetGasTip keeps the invariant, from every pool state that satisfies it (guard: transaction
+   nonces are uint64 values) *)
+Theorem C42_inv_through_add_and_tip_histories : forall prioE prioB gtE gtB c ops p q,
+  Inv p -> Forall hop_ok ops -> hrun prioE prioB gtE gtB c ops p = Ok q -> Inv q.
+Proof. exact hrun_inv. Qed.
+Print Assumptions C42_inv_through_add_and_tip_histories.
+
+(* ... and a pool without transactions (what Init yields on an empty directory) satisfies it *)
+Theorem C42_inv_of_empty_pool : forall p,
+  p_index p = [] -> p_spent p = [] -> (forall a, bal_of p a < two256) -> Inv p.
+Proof. exact inv_empty. Qed.
+Print Assumptions C42_inv_of_empty_pool.
+
+Theorem C42_set_gas_tip_preserves_inv : forall prioE prioB tip p q,
+  Inv p -> set_gas_tip prioE prioB tip p = Ok q -> Inv q.
+Proof. exact set_gas_tip_inv. Qed.
+Print Assumptions C42_set_gas_tip_preserves_inv.
 
 (* crash cuts: every entry a clean Close leaves on disk is on disk, unchanged, after an abrupt
    stop (Delete never touches the disk: an abrupt stop can only resurrect entries) *)
